@@ -229,3 +229,35 @@ func lookaheadForms(w *eng.W, leg string, f func(leg string, src []byte)) {
 		}
 	}
 }
+
+// neighbourTexts: code points next to (sharing leading bytes with) every white-space, line-break and
+// byte-order-mark character, at the very start of the input, in the middle and at the end of short texts.
+func neighbourTexts(w *eng.W, leg string, f func(string, []byte)) {
+	special := []rune{0x09, 0x0b, 0x0c, 0x20, 0x0a, 0x0d, 0x85, 0xa0, 0x1680, 0x2000, 0x200a, 0x200b, 0x2028, 0x2029, 0x202f, 0x205f, 0x3000, 0xfeff}
+	seen := map[rune]bool{}
+	var cps []rune
+	for _, sp := range special {
+		for _, d := range []rune{-64, -2, -1, 0, 1, 2, 63, 64} {
+			c := sp + d
+			if c >= 0x80 && c < 0x110000 && !(c >= 0xd800 && c <= 0xdfff) && !seen[c] {
+				seen[c] = true
+				cps = append(cps, c)
+			}
+		}
+	}
+	for c := rune(0xfec0); c <= 0xfeff; c++ { // every code point that starts with the bytes of the BOM
+		if !seen[c] {
+			seen[c] = true
+			cps = append(cps, c)
+		}
+	}
+	for _, c := range cps {
+		if !w.Take() {
+			continue
+		}
+		ch := string(c)
+		for _, form := range []string{"%s", "%s - 1", "%s[1]", "%sa", "a%sb", "1 +%s", "%s%s", "(%s)", "'%s'", "a.%s", "%s\n+ 1", "\ufeff%s", " %s"} {
+			f(leg, []byte(strings.Replace(form, "%s", ch, -1)))
+		}
+	}
+}
